@@ -117,6 +117,8 @@ def logger_rules(chk):
             ok = False
             continue
         mp = args[2]
+        if mp[0] == "call" and mp[1] == ("glob", "ext:builtins.dict") and not mp[2] and all(k is not None for k, _v in mp[3]):
+            mp = ("dict", tuple((("const", k), val) for k, val in mp[3]))  # dict(a=..., b=...) is the literal {"a": ..., "b": ...}
         if mp[0] != "dict" or any(k is None or k[0] != "const" for k, _v in mp[1]):
             chk.undecided(rule, s.qual, "the field mapping is not a literal dict", node=s.node)
             ok = False
